@@ -380,6 +380,11 @@ impl CompactionWorker {
                     level_summary = db_fields_guard.version_set.level_summary()
                 );
                 compaction_manifest.release_inputs(&mut db_fields_guard.version_set);
+                #[cfg(raindb_verif)]
+                crate::verif_hooks::events::emit(crate::verif_hooks::events::Event::TrivialMove {
+                    level: compaction_manifest.level(),
+                    file: file_to_compact.file_number(),
+                });
             } else {
                 let compaction_result = CompactionWorker::compact_tables(
                     db_state,
@@ -600,6 +605,24 @@ impl CompactionWorker {
                     .sequence_number(),
             )
         };
+
+        #[cfg(raindb_verif)]
+        crate::verif_hooks::events::emit(crate::verif_hooks::events::Event::CompactionStart {
+            level: compaction_state.compaction_manifest().level(),
+            inputs0: compaction_state
+                .compaction_manifest()
+                .get_compaction_level_files()
+                .iter()
+                .map(|f| f.file_number())
+                .collect(),
+            inputs1: compaction_state
+                .compaction_manifest()
+                .get_parent_level_files()
+                .iter()
+                .map(|f| f.file_number())
+                .collect(),
+            smallest_snapshot: compaction_state.get_smallest_snapshot(),
+        });
 
         // Release lock while doing actual compaction work
         let compaction_result = parking_lot::MutexGuard::<'_, GuardedDbFields>::unlocked_fair(
